@@ -144,8 +144,9 @@ def to_dict(c, data_dir):
     return d
 
 
-def to_line(op, c, size=None):
-    """`size`: the `size` of the dictionary's [current] table (None = no [current] table)"""
+def to_line(op, c, size=None, numeric=True):
+    """`size`: the `size` of the dictionary's [current] table (None = no [current] table); `numeric`: the interfaces
+    are TOML numbers (False: strings / booleans / lists — only their number and order are sent)"""
     intf, workers, moves, cap, lm1, quantis, ee, engines, seed, acc = c[:10]
     o = lambda v: "-" if v is None else str(int(v))  # noqa: E731
     if ee is None:
@@ -154,7 +155,7 @@ def to_line(op, c, size=None):
         ees = " ".join([str(len(ee))] + [lst(x, hexs) for x in ee])
     engs = " ".join([str(len(engines))] + [f"{hexs(n)} {cls} {o(ip)} {other}" for (n, cls, ip, other) in engines])
     return (f"{op} {lst(intf)} {workers} {lst(moves)} {o(cap)} {lm1} {o(quantis)} {ees} {engs} {o(seed)} {o(acc)} "
-            f"{o(size)}")
+            f"{o(size)}" + ("" if numeric else " 0"))
 
 
 def num(x):
@@ -182,6 +183,10 @@ def py_valid(cfg):
     intf = sim["interfaces"]
     n = len(intf)
     bad = []
+    if n >= 2 and any(isinstance(x, bool) or not isinstance(x, (int, float)) for x in intf):
+        # interfaces must be numbers (/repo a54d86e): strings compare among themselves, so nothing else can be
+        # asked of such a list
+        return [NUMERIC_CLAUSE]
     if any(not (a <= b) for a, b in zip(intf, intf[1:])):
         bad.append("interfaces-unsorted")
     elif any(a == b for a, b in zip(intf, intf[1:])):
@@ -215,6 +220,7 @@ def py_valid(cfg):
     return bad
 
 
+NUMERIC_CLAUSE = "interfaces-not-numbers"
 SIZE_CLAUSE = "current-size-differs-from-interfaces"
 SIZE_SIG = "C18:restart:current-size-differs-from-interfaces"
 
@@ -867,42 +873,71 @@ def first_picks(st, cfg):
     return None
 
 
-def restart_roundtrip(real, st):
+def restart_roundtrip(real, st, generations=2):
     """store the live paths, write restart.toml with the real writer, read it back with the real setup_config
-    (restart branch), and initialise again through the real setup_internal up to the first picks"""
+    (restart branch), and initialise again through the real setup_internal up to the first picks — and once more from
+    the state so restarted (jobs re-issued by the first restart are on record then): a second restart.  A later
+    generation reports under the stage `second-restart`."""
+    r = ("ok", None, None, None)
+    for gen in range(generations):
+        r = _restart_roundtrip_once(real, st)
+        if r[0] != "ok" or r[1] != r[2] or r[3] is not None or r[4] is None:
+            if gen > 0 and r[3] is not None:
+                return r[0], r[1], r[2], "second-restart:" + r[3]
+            if gen > 0 and r[0] != "ok":
+                return "second-restart:" + r[0], r[1], r[2], r[3]
+            return r[:4]
+        st = r[4]
+    return r[:4]
+
+
+def _restart_roundtrip_once(real, st):
     try:
         store_paths([st._trajs[i] for i in range(st.n - 1)])
         st.write_toml()
         before = copy.deepcopy(st.config)
+        # a state that was itself started from a restart file: the jobs that file had in flight were re-issued by the
+        # first picks (same ensembles, same paths) and must be on record unchanged in the file written now
+        l0 = getattr(st, "_c18_locked0", None)
+        if l0:
+            sim, cur = before["simulation"], before["current"]
+            job = lambda t: ([int(x) for x in t[0]], [str(x) for x in t[1]])  # noqa: E731
+            if before["runner"]["workers"] >= len(l0) and sim["steps"] - cur["cstep"] >= len(l0):
+                written = [job(t) for t in cur.get("locked", [])]
+                lost = [job(t) for t in l0 if job(t) not in written]
+                if lost:
+                    b = canon(strip_restart(before))
+                    return "ok", b, b, f"reissued-jobs-changed-on-record:{lost[0]}-not-in-{written}", None
     except Exception as e:  # noqa: BLE001
         if type(e).__name__ == "Timeout":
             raise
-        return "write_toml:" + err_kind(e), None, None, None
+        return "write_toml:" + err_kind(e), None, None, None, None
     try:
         again = real.S.setup_config("restart.toml", "restart.toml")
     except Exception as e:  # noqa: BLE001
-        return err_kind(e), None, None, None
+        return err_kind(e), None, None, None, None
     if again is None:
-        return "none", None, None, None
+        return "none", None, None, None, None
     try:
         b, a = canon(strip_restart(before)), canon(strip_restart(again))
     except Exception as e:  # noqa: BLE001
-        return "malformed-config:" + err_kind(e), None, None, None
+        return "malformed-config:" + err_kind(e), None, None, None, None
     stage = "setup_internal"
     try:
         md_items, st2 = real.setup_internal(again)
         if len(st2.ensembles) != len(again["simulation"]["interfaces"]):
-            return "ok", b, a, f"{stage}:wrong-number-of-ensembles"
+            return "ok", b, a, f"{stage}:wrong-number-of-ensembles", None
         if [int(x) for x in st2.live_paths()] != [int(x) for x in again["current"]["active"]]:
-            return "ok", b, a, f"{stage}:active-paths-not-restored"
+            return "ok", b, a, f"{stage}:active-paths-not-restored", None
         mbad = md_items_violations(again, md_items, st2)
         if mbad:
-            return "ok", b, a, f"md_items:{mbad[0]}"
+            return "ok", b, a, f"md_items:{mbad[0]}", None
         stage = "first-picks"
+        st2._c18_locked0 = copy.deepcopy(list(again["current"].get("locked", [])))
         err = first_picks(st2, again)
-        return "ok", b, a, (f"{stage}:{err}" if err else None)
+        return "ok", b, a, (f"{stage}:{err}" if err else None), st2
     except Exception as e:  # noqa: BLE001
-        return "ok", b, a, f"{stage}:{err_kind(e)}"
+        return "ok", b, a, f"{stage}:{err_kind(e)}", None
 
 
 def md_items_violations(cfg, md_items, st):
@@ -1293,6 +1328,7 @@ TYPE_MODS = {
     "interfaces-nan-first": (lambda d: d["simulation"]["interfaces"].__setitem__(0, float("nan")), "typed"),
     "interfaces-nan-last": (lambda d: d["simulation"]["interfaces"].__setitem__(-1, float("nan")), "typed"),
     "interfaces-strings": (lambda d: d["simulation"].update(interfaces=[f"{k}" for k in range(len(d["simulation"]["interfaces"]))]), "typed"),
+    "interfaces-bool": (lambda d: d["simulation"]["interfaces"].__setitem__(0, False), "typed"),
     "interfaces-nested": (lambda d: d["simulation"].update(interfaces=[[x] for x in d["simulation"]["interfaces"]]), "typed"),
     "interfaces-scalar": (lambda d: d["simulation"].update(interfaces=3.0), "typed"),
     "workers-float-integral": (lambda d: d["runner"].update(workers=float(d["runner"]["workers"])), "typed"),
@@ -1313,19 +1349,18 @@ TYPE_MODS = {
     "no-shooting_moves": (lambda d: d["simulation"].pop("shooting_moves"), "typed"),
     "no-interfaces": (lambda d: d["simulation"].pop("interfaces"), "typed"),
 }
-# What the UNCHANGED library (/repo HEAD) still gets wrong on these inputs: reported to the coordinator, recorded in
+# PENDING_FINDINGS: what the UNCHANGED library (/repo HEAD) still gets wrong: reported to the coordinator, recorded in
 # the evidence under `pending_findings` on every run, not yet recorded in known_findings.json.  ONLY open defects may
 # be listed here — a signature stays on this list exactly as long as /repo HEAD shows it; the defects repaired by
 # adf2044 (`interface_cap = false`), d56000a (NaN) and 2128e76 (float workers) were removed from it: if they come
 # back, block T fails with the concrete input (and corpus/C18/type-*.json replay them first).
-PENDING_FINDINGS |= {
-    # no `shooting_moves` key at all (0 moves for n ensembles): KeyError from check_config's first lines, not a
-    # TOMLConfigError
-    "C18:type:no-shooting_moves:invalid-rejected-with-key-error:too-few-shooting-moves",
-    # interfaces given as strings compare among themselves: ["0", "1"] passes every test, load_paths then raises
-    # TypeError comparing a string with the path's order values
-    "C18:type:interfaces-strings:accepted-but-init-fails:load_paths",
-}
+# (string interfaces accepted / KeyError for a missing shooting_moves key were listed here until /repo a54d86e
+#  repaired them; corpus/C18/type-interfaces-strings.json and type-no-shooting-moves.json replay them.)
+# An input class that is NOT generated, on purpose: a restart file edited by hand to `output.pattern = true` WITHOUT the
+# key `output.pattern_file` (only the fresh branch of setup_config sets it; a restart file of a run with output.pattern
+# carries it, and `restart_dict` adds it as the library would).  On /repo HEAD such a file is accepted and
+# pattern_header (workers = 0) or write_pattern (first finished step) raise KeyError 'pattern_file' — an observation
+# reported to the coordinator, outside the property's list of validated fields.
 
 
 def pending_or_fail(ctx, sig, what, rep):
@@ -1378,6 +1413,17 @@ def run_type_confusion(ctx, real, lcases, only=None):
                 elif cfg is not None:
                     judge(ctx, real, c, code, cfg, True, False, ("to-last",), None, None, None, None)
                 continue
+            if ctx._driver_ok and name in ("interfaces-strings", "interfaces-nested", "no-shooting_moves"):
+                # inside the Lean model since a54d86e: interfaces that are not numbers (flag Cfg.intfNumeric, their
+                # order codes 0, 1, … sent) and an absent shooting_moves key (= the empty list)
+                if name == "no-shooting_moves":
+                    mline = to_line("setup", Case(c[:2] + ((),) + c[3:]))
+                else:
+                    mline = to_line("setup", Case((tuple(range(len(c[0]))),) + c[1:]), None, numeric=False)
+                mout = safe_driver(ctx, [mline])[0]
+                if mout.split(" ")[0] != code.split(" ")[0]:
+                    ctx.disagree({"fn": "setup_config vs Infretis.Config.setupConfig (block T)", "case": case_obj(c),
+                                  "modification": name, "request": mline}, code, mout)
             # every other value: the same predicates as for the float configurations, read with Python's own
             # comparisons (a bool is the number 0/1, NaN compares false)
             if code.startswith("malformed"):
@@ -1840,7 +1886,9 @@ def restart_initialise(real, cfg):
             return stage, "wrong-number-of-ensembles", shown, [], orders
         mbad = md_items_violations(cfg, md_items, st)
         stage = "first-picks"
+        st._c18_locked0 = copy.deepcopy(list(cfg["current"].get("locked", [])))
         err = first_picks(st, cfg)
+        real._last_state = st
         return (stage, err, shown, mbad, orders) if err else ("done", None, shown, mbad, orders)
     except Exception as e:  # noqa: BLE001
         if type(e).__name__ == "Timeout":
@@ -1916,6 +1964,18 @@ def judge_restart(ctx, real, c, variant, two_files, code, cfg, d_in=None, size=N
                           dict(rep, error=mbad[0], orders=orders))
             if rlcases is not None and shown is not None and orders is not None:
                 rlcases.append((dict(rep), load_line(c, orders, size), shown))
+            if stage == "done" and not mbad and cfg["current"].get("locked"):
+                # the [current] table had a job in flight: the first picks re-issued it; the state so restarted is
+                # written and read back once more (a second restart)
+                r, before, again, ierr = restart_roundtrip(real, real._last_state, generations=1)
+                ctx.hit(f"restart-init:second-restart:{r}{':' + ierr if ierr else ''}")
+                if r != "ok" or before != again:
+                    fail_once(ctx, "C18:restart-not-a-fixed-point",
+                              f"restart.toml written after a restart with a job in flight, read back → {r}", dict(rep, result=r))
+                elif ierr is not None:
+                    fail_once(ctx, "C18:restart-route:accepted-valid-but-init-fails:second-restart",
+                              f"the restart file written after a restart with a job in flight is accepted but {ierr}",
+                              dict(rep, error=ierr))
         return "restart:accepted"
     if code == "none":
         return "restart:none"
@@ -2001,7 +2061,7 @@ def _run(ctx, real):
     variants = list(RESTART_VARIANTS)
     init_budget = 8000 if ctx.quick else 40000
     restart_budget = 150 if ctx.quick else 1500
-    rinit_budget = 2500 if ctx.quick else 20000
+    rinit_budget = 2500 if ctx.quick else 8000
     rlcases = []
     icases = []
     lcases = []
@@ -2197,11 +2257,14 @@ def _run(ctx, real):
         "with the direct statement (shooting entries) and with Infretis.WF.cvVector (all entries)",
         "tomli/tomli_w are trusted to be lossless on what is written",
         "every table and key check_config / setup_config read unconditionally is present ([runner].workers, "
-        "[simulation] interfaces / shooting_moves / tis_set / steps, [output].data_dir): a file without one of them "
-        "raises KeyError before (or instead of) any configuration test, whatever else is wrong with it — judged only "
-        "for a missing shooting_moves key (= no shooting move), which is listed under pending_findings",
-        "interfaces are numbers: strings or nested lists for interfaces are outside the Lean model; block T runs them "
-        "through the real code and lists what it finds under pending_findings",
+        "[simulation] interfaces / tis_set / steps, [output].data_dir): a file without one of them raises KeyError "
+        "before (or instead of) any configuration test, whatever else is wrong with it; a missing shooting_moves key "
+        "reads as the empty list and is judged (too few moves → TOMLConfigError)",
+        "interfaces that are not numbers (strings, booleans, lists) must be rejected with TOMLConfigError (judged in "
+        "block T, modelled by the flag Cfg.intfNumeric); the Lean model says nothing about their values",
+        "restart files edited by hand to output.pattern = true WITHOUT output.pattern_file are not generated (the "
+        "library's own restart files carry the key; on HEAD such a file is accepted and pattern_header / write_pattern "
+        "raise KeyError — reported as an observation, outside the validated fields)",
         "a [current] table has a `size` key (the library always writes it); the model's Cfg.curSize = none means: no "
         "[current] table (raw input file)",
         "restart route: the [current] table is the one the library itself writes for the case's number of interfaces "
